@@ -17,6 +17,22 @@ CHECKS = {
          "Exploration with an exhaustive part: every plain/1/2/3-category assignment of up to 5 (quick) or 6 (thorough) columns is enumerated and random larger cases (n<=40, p<=10, arbitrary u16 codes, any index order, f32/f64) are generated; the encoder output is compared exactly with a matrix built from the definition; error cases (unseen value, non-integer, negative) must return Err; the mapper's four maps are checked to be mutually inverse in first-appearance order.",
          "Trusts the 20-line definition-based reference encoder in harness/src/props/c18.rs.",
          "DESIGN.md section 7 C18"),
+ "C02": ("property-based testing (proptest): constructed symmetric / general matrices with known spectrum; residual, trace and conjugate-pair oracles in f64",
+         "Exploration: evd(true) on Q diag(l) Q^T inputs (repeated, zero, block-diagonal, rescaled 1e-12..1e12, f32/f64): zero imaginary parts, ordering, orthonormality, A V = V D and eigenvalues against the constructed spectrum; evd(false) on random, triangular, companion, normal, rotation-block, real-separated and badly balanced inputs: conjugate closure, trace and trace-of-square identities, real eigenvector residuals, spectrum against the construction, full A V = V D for real separated spectra.",
+         "Trusts oracle.rs; bounds are 512*eps*n*norm(A) times the condition number of the constructing similarity.",
+         "DESIGN.md section 7 C02"),
+ "C15": ("property-based testing (proptest) against independently coded textbook definitions (pair-counting AUC, contingency-table entropies) plus metamorphic relations (argument swap, relabelling)",
+         "Exploration: every metric is compared with its definition on generated label / score / target vectors at every class balance, tie pattern and scale; cluster scores additionally satisfy range, swap, relabelling and zero-conditional-entropy relations; length mismatches must panic for the seven listed metrics.",
+         "Trusts the reference formulas in harness/src/props/c15.rs; 0/0 regions of the definitions are generated but only required not to panic.",
+         "DESIGN.md section 7 C15"),
+ "C16": ("exhaustive small-scope enumeration (all 2<=k<=n<=N) plus property-based testing with an instrumented (echo) estimator recording the rows it was fitted on",
+         "Exploration with an exhaustive part: unshuffled k-fold is enumerated completely for n<=40 (quick) / 64 (thorough); shuffled k-fold, train_test_split and both cross-validation drivers are checked by validity predicates that hold for every permutation, using row identifiers carried in the data so that leakage, misplacement and detached targets are directly observable.",
+         "Shuffled permutations come from the library's unseeded RNG (observed, not controlled).",
+         "DESIGN.md section 7 C16"),
+ "C17": ("property-based testing (proptest): closed forms in f64 and metric axioms on generated triples over the full finite magnitude range",
+         "Exploration: Euclidean, Manhattan, Minkowski(1..8), Hamming and Mahalanobis distances on generated triples (f32/f64) against closed forms, with identity, symmetry, non-negativity, triangle inequality and the cross-identities Minkowski(1)=Manhattan, Minkowski(2)=Euclidean, Mahalanobis(I)=Euclidean; length mismatches must panic.",
+         "Trusts the closed forms coded in harness/src/props/c17.rs and oracle::solve for the Mahalanobis reference.",
+         "DESIGN.md section 7 C17"),
 }
 ALL = ["C%02d" % i for i in range(1, 21)]
 NA_REASON = {}
